@@ -156,8 +156,21 @@ class Gen:
         if self.profile.get("groups"):
             for gid in (1, 2, 7):
                 self.ops.append(self.base({"op": "create_group", "name": "g%d" % gid, "id": gid}))
+        decoy_id = [900000]
+
+        def decoy_send():
+            # a second topic of the same stream with data of its own: its size must not count against this topic's limit
+            n = self.rng.choice([2, 5, 9])
+            self.ops.append({"op": "send", "stream": 1, "topic": 2, "decoy": True, "part": {"kind": "pid", "id": 1},
+                             "msgs": [{"id": decoy_id[0] + i, "len": self.rng.choice([10, 200, 700])} for i in range(n)]})
+            decoy_id[0] += n
+        if self.profile.get("decoy"):
+            self.ops.append({"op": "create_topic", "stream": 1, "name": "other", "parts": 1, "id": 2, "decoy": True})
+            decoy_send()
         for _ in range(n_ops):
             self.step()
+            if self.profile.get("decoy") and self.rng.random() < 0.15:
+                decoy_send()
             if self.profile.get("poll_after_each") and self.ops[-1]["op"] not in ("poll", "dump", "get_topic", "get_offset"):
                 if self.rng.random() < self.profile["poll_after_each"]:
                     self.full_poll()
@@ -217,6 +230,8 @@ def model_ops(trace):
             continue
         k = o["op"]
         now = clk[i]
+        if o.get("decoy"):
+            continue
         if k == "send":
             t = C("OSend", now, [(m["id"], m["len"], HDR_BYTES * m.get("hdr", 0)) for m in o["msgs"]])
         elif k == "flush":
@@ -405,7 +420,7 @@ PROFILES = {
     "C03": [{"restart": 18, "purge": 2, "maintain": 4, "advance": 4, "expiry": True, "dedup": True, "poll_after_each": 0.6, "max_ops": 30, "groups": True, "offsets": 5}],
     "C07": [{"restart": 6, "purge": 4, "groups": True, "offsets": 28, "poll_after_each": 0.1, "max_ops": 36}],
     "C14": [{"restart": 6, "purge": 1, "maintain": 12, "advance": 12, "expiry": True, "update": 4, "poll_after_each": 0.4, "max_ops": 34}],
-    "C15": [{"restart": 4, "purge": 1, "maintain": 10, "advance": 2, "max_size": True, "update": 4, "poll_after_each": 0.3, "stats": 6, "max_ops": 34}],
+    "C15": [{"restart": 4, "purge": 1, "maintain": 10, "advance": 2, "max_size": True, "update": 4, "poll_after_each": 0.3, "stats": 6, "max_ops": 34, "decoy": True}],
     "C16": [{"restart": 8, "purge": 4, "maintain": 6, "advance": 6, "expiry": True, "dedup": True, "stats": 14, "poll_after_each": 0.2, "max_ops": 34},
             {"restart": 6, "purge": 3, "maintain": 6, "max_size": True, "stats": 14, "poll_after_each": 0.2, "max_ops": 30}],
     "C18": [{"restart": 8, "purge": 1, "dedup": True, "poll_after_each": 0.5, "max_ops": 32}],
